@@ -60,9 +60,13 @@ func vnetStores(c cfgSpec, dir string) []config.Store {
 	return stores
 }
 
+// vnetRestartB: in these runs B restarts (stop at 60 s, a new instance of the same configuration at 70 s).
+var vnetRestartB time.Duration
+
 func vnetRun(t *testing.T, c cfgSpec, faults []string) (res vnetResult) {
 	r := vlife.Run(t, vnetStores(c, t.TempDir()), faults, vlife.Options{
-		Horizon: vnetHorizon, LateStart: 150 * time.Second, ExpectPeering: c.secret == "" || c.universe != "",
+		RestartB: vnetRestartB,
+		Horizon:  vnetHorizon, LateStart: 150 * time.Second, ExpectPeering: c.secret == "" || c.universe != "",
 		GuardStop: guardStop, ListenAddr: "127.0.0.1:4001",
 		OnLeftovers: func() {
 			if stopWatch != nil {
@@ -183,10 +187,8 @@ func runVnetFaults(t *testing.T, rep *kit.Report, env kit.Env, evals, nontrivial
 	rep.Bounds["vnet_stop_times"] = len(vnetStopTimes)
 
 	cfgs := []cfgSpec{{}, {universe: "u", secret: "s"}, {lite: true}, {stub: true}}
-	if !env.Deep() {
-		cfgs = cfgs[:2]
-	}
 	rep.Bounds["vnet_configurations"] = len(cfgs)
+	rep.Bounds["vnet_scenarios"] = "three routers; the same with a restart of B (stop at 60 s, new instance at 70 s)"
 	rep.Bounds["vnet_horizon_virtual_s"] = int(vnetHorizon / time.Second)
 	caseNo := 0
 	report := func(c cfgSpec, faults []string, r vnetResult) {
@@ -207,10 +209,24 @@ func runVnetFaults(t *testing.T, rep *kit.Report, env kit.Env, evals, nontrivial
 				continue
 			}
 			seen[key] = true
-			rep.Violate(key, fmt.Sprintf("%s — virtual network, routers A (listens), B (dials A at once), C (started after 150 s, dials A); failed operations: %v; %s", kv[1], faults, c), map[string]any{"config": c.String(), "faults": faults})
+			rep.Violate(key, fmt.Sprintf("%s — virtual network, routers A (listens), B (dials A at once), C (started after 150 s, dials A); failed operations: %v; restart of B after: %v; %s", kv[1], faults, vnetRestartB, c), map[string]any{"config": c.String(), "faults": faults, "restart_b_after": vnetRestartB.String()})
 		}
 	}
+	type scen struct {
+		c       cfgSpec
+		restart time.Duration
+	}
+	var scens []scen
 	for _, c := range cfgs {
+		scens = append(scens, scen{c, 0})
+	}
+	for _, c := range cfgs[:2] {
+		scens = append(scens, scen{c, 60 * time.Second})
+	}
+	defer func() { vnetRestartB = 0 }()
+	for _, sc := range scens {
+		c := sc.c
+		vnetRestartB = sc.restart
 		// the fault-free run defines the first-level fault points; it is executed by every shard.
 		base := vnetRun(t, c, nil)
 		if env.Mine(0) {
@@ -221,7 +237,7 @@ func runVnetFaults(t *testing.T, rep *kit.Report, env kit.Env, evals, nontrivial
 		if len(base.problems) > 0 {
 			continue
 		}
-		rep.Bounds["vnet_fault_points_"+fmt.Sprint(c.universe != "", c.lite, c.stub)] = len(base.ops)
+		rep.Bounds["vnet_fault_points_"+fmt.Sprint(c.universe != "", c.lite, c.stub, sc.restart)] = len(base.ops)
 		baseSet := map[string]bool{}
 		for _, o := range base.ops {
 			baseSet[o] = true
